@@ -8,12 +8,14 @@ import (
 	"hash/crc32"
 	"image"
 	"image/color"
+	"io"
 	"testing"
 	"testing/iotest"
 
 	"github.com/evanoberholster/imagemeta"
 	"github.com/evanoberholster/imagemeta/imagehash"
 	"github.com/evanoberholster/imagemeta/imagehash/transforms32"
+	"github.com/evanoberholster/imagemeta/imagetype"
 )
 
 func pngChunk(typ string, data []byte) []byte {
@@ -231,5 +233,27 @@ func TestConfirmYCbCr420(t *testing.T) {
 	}
 	if bad > 0 {
 		t.Errorf("4:2:0 image: %d of 4096 luminance values differ from the pixels' luminance by more than 3", bad)
+	}
+}
+
+// C08 RDATEOF: an io.ReaderAt may return io.EOF together with a full read (the contract says so, and readers over
+// fixed-size blobs do it). imagetype.ReadAt discarded the count and took any error for a failure, so a 24-byte
+// file sniffed through such a reader was refused while bytes.Reader over the same bytes was classified.
+type eofWithData struct{ b []byte }
+
+func (e eofWithData) ReadAt(p []byte, off int64) (int, error) {
+	n := copy(p, e.b[off:])
+	if int(off)+n >= len(e.b) {
+		return n, io.EOF
+	}
+	return n, nil
+}
+
+func TestConfirmReadAtFullReadWithEOF(t *testing.T) {
+	hdr := append([]byte{0xFF, 0xD8, 0xFF, 0xE1}, make([]byte, 20)...)
+	want, werr := imagetype.ReadAt(bytes.NewReader(hdr))
+	got, gerr := imagetype.ReadAt(eofWithData{hdr})
+	if got != want || (gerr == nil) != (werr == nil) {
+		t.Fatalf("ReadAt over a reader that reports EOF with the last bytes: (%v, %v), over bytes.Reader: (%v, %v)", got, gerr, want, werr)
 	}
 }
